@@ -2136,7 +2136,7 @@ class sptensor:
         c = ttb.sptensor.from_aggregator(newsubs, newvals, tuple(newsiz))
 
         # Convert to a dense tensor if more than 50% of the result is nonzero.
-        if c.nnz > 0.5 * prod(newsiz):
+        if c.nnz > 0.5 * prod(int(s) for s in newsiz):
             c = c.to_tensor()
 
         return c
